@@ -407,6 +407,8 @@ class Conv1d(nn.Module):
         if padding == 'same':
             if stride != 1:
                 raise ValueError("padding='same' is not supported for strided convolutions")
+            if (dilation * (kernel_size - 1)) % 2 != 0: # would need one more padded position on one side than on the other
+                raise ValueError("padding='same' needs dilation * (kernel_size - 1) to be even (asymmetric padding is not supported)")
             padding = int(dilation * (kernel_size - 1) // 2)
         if padding == 'valid':
             padding = 0
@@ -476,6 +478,8 @@ class Conv2d(nn.Module):
         if padding == 'same':
             if any(s != 1 for s in stride):
                 raise ValueError("padding='same' is not supported for strided convolutions")
+            if any((d * (k - 1)) % 2 != 0 for k, d in zip(kernel_size, np.broadcast_to(dilation, 2))):
+                raise ValueError("padding='same' needs dilation * (kernel_size - 1) to be even (asymmetric padding is not supported)")
             padding = tuple(int(d * (k - 1) // 2) for k, d in zip(kernel_size, np.broadcast_to(dilation, 2)))
         if padding == 'valid':
             padding = 0
